@@ -165,11 +165,12 @@ static int soak(size_t count, int order, int check) {
  * NAME, double and float; prints one digest line per call (FNV-1a over every field of every step). */
 static uint64_t lcg(uint64_t *s) { *s = *s * 6364136223846793005ULL + 1442695040888963407ULL; return *s; }
 static uint64_t fnv(uint64_t h, uint64_t v) { for (int k = 0; k < 8; k++) { h ^= (v >> (8 * k)) & 0xff; h *= 0x100000001b3ULL; } return h; }
-static int big(uint64_t seed) {
+static int big(uint64_t seed, size_t maxn) {
     static const char *names[7] = {"single", "complete", "average", "weighted", "ward", "centroid", "median"};
     static const size_t sizes[5] = {2048, 2049, 2311, 8194, 12288};
     for (int si = 0; si < 5; si++) for (int mi = 0; mi < 7; mi++) for (int wide = 1; wide >= 0; wide--) {
         size_t n = sizes[si], len = n * (n - 1) / 2;
+        if (n > maxn) continue;
         if (n > 4000 && mi != 0 && mi != 2) continue;   /* the largest sizes: two fast methods only */
         kodama_method m; if (!method_by_name(names[mi], &m)) return 2;
         uint64_t st = seed * 1000003ULL + (uint64_t)(si * 100 + mi * 10 + wide);
@@ -247,7 +248,7 @@ int main(int argc, char **argv) {
              * across thread creation; leaks are LeakSanitizer's business in the ASan build */
             return shared_rounds(atoi(argv[i + 1]), atoi(argv[i + 2]), 0);
         }
-        if (!strcmp(argv[i], "--big") && i + 1 < argc) return big(strtoull(argv[i + 1], NULL, 10));
+        if (!strcmp(argv[i], "--big") && i + 1 < argc) return big(strtoull(argv[i + 1], NULL, 10), i + 2 < argc ? strtoull(argv[i + 2], NULL, 10) : 100000);
         if (!strcmp(argv[i], "--soak") && i + 2 < argc) {
             printf("soak\n"); fflush(stdout);
             int w = soak(64, 0, 0);   /* warm-up: stdio buffers and the like are allocated once */
